@@ -53,6 +53,13 @@ int main(int argc, char **argv) {
         printf("RESULT %d", i);
         for (int v : host) printf(" %d", v);
         printf(" H=%s\n", k.hash().getFullString().c_str());
+        if (b.get("argcheck", false)) {
+          // the kernel must still know its parameter list (metadata of a complete cache entry):
+          // running it without arguments has to be rejected
+          int threw = 0;
+          try { k(); } catch (occa::exception &e) { threw = 1; }
+          printf("ARGCHECK %d %d\n", i, threw);
+        }
       } catch (occa::exception &e) {
         printf("EXC %d %s\n", i, firstLines(e.toString()).c_str());
         rc = 3;
